@@ -168,11 +168,18 @@ def match_lang(pat):
     ^(?:a|b|c)$  or  ^(?:a)$|^(?:b)$ )."""
     if pat.flags & (re.M | re.S | re.A | re.L):
         raise Untranslatable('flags %r' % pat.flags)
+    key = (pat.pattern, pat.flags)
+    if key in _LANG_CACHE:
+        return _LANG_CACHE[key]
     _ICASE[0] = bool(pat.flags & re.I)
     try:
-        return _match_lang(pat)
+        _LANG_CACHE[key] = _match_lang(pat)
+        return _LANG_CACHE[key]
     finally:
         _ICASE[0] = False
+
+
+_LANG_CACHE = {}
 
 
 def _match_lang(pat):
@@ -282,3 +289,59 @@ def _unescape(z3s):
     """z3 prints non-ASCII/special characters as \\u{XX}."""
     return re.sub(r'\\u\{([0-9a-fA-F]+)\}', lambda m: chr(int(m.group(1), 16)),
                   z3s)
+
+
+def resolves_to_decomposed(ses, table, lang, tag, name, first_chars=None):
+    """Queries that together imply  forall s in lang: resolve(s) == tag  for
+    the resolver `table`, without the big if-then-else term: for every
+    first-character bucket that a string of `lang` can start with, (a) lang
+    is included in the union of the bucket's patterns for `tag`, and (b) no
+    pattern of the bucket for another tag matches a string of lang.  (b) is
+    stronger than needed (order is ignored); a `sat` there is reported as
+    inconclusive by the caller, not as a violation."""
+    out = []
+    s = ses.s
+    wild = list(table.get(None, []))
+    if first_chars is not None:
+        # a first character without a bucket falls through to the wildcard
+        # resolvers only
+        q = ses.query('%s: starts with one of %r' % (name, first_chars),
+                      z3.InRe(s, lang), z3.Not(z3.InRe(s, concat([
+                          words(list(first_chars)), z3.Star(ANYCHAR)]))))
+        q.pop('_solver')
+        out.append(q)
+        missing = [c for c in first_chars if c not in table]
+        if missing:
+            raise Untranslatable('no bucket for %r' % missing)
+    for ch, rs in table.items():
+        if ch is None:
+            continue
+        if ch == '':
+            starts = z3.Length(s) == 0
+        else:
+            starts = z3.InRe(s, concat([lit(ch), z3.Star(ANYCHAR)]))
+        if first_chars is not None:
+            # the caller knows which characters strings of lang start with
+            if ch not in first_chars:
+                continue
+        else:
+            probe = ses.query('%s: can a string start with %r' % (name, ch),
+                              z3.InRe(s, lang), starts, expect='either')
+            probe.pop('_solver')
+            if probe['result'] == 'unsat':
+                continue
+        chain = list(rs) + wild
+        mine = [match_lang(rx) for t, rx in chain if t == tag]
+        others = [(t, rx) for t, rx in chain if t != tag]
+        q = ses.query('%s [bucket %r]: not matched by any %s pattern' % (
+            name, ch, tag.split(':')[-1]), z3.InRe(s, lang), starts,
+            z3.Not(z3.InRe(s, union(mine))) if mine else z3.BoolVal(True))
+        q.pop('_solver')
+        out.append(q)
+        for t, rx in others:
+            q = ses.query('%s [bucket %r]: also matched by the %s pattern' % (
+                name, ch, t.split(':')[-1]), z3.InRe(s, lang), starts,
+                z3.InRe(s, match_lang(rx)))
+            q.pop('_solver')
+            out.append(q)
+    return out
